@@ -936,6 +936,7 @@ class ModelsMixin(object):
                 s = UTF8_DEC(t)
                 self.assume_raw(UTF8_ENC(s) == t)
                 self.eng.externals_used.add("bytes.decode('utf-8') (assumed: total on utf8_ok, inverse of encode)")
+                self.assume_raw(z3.And(z3.Length(s) <= z3.Length(t), 4 * z3.Length(s) >= z3.Length(t)))
                 return SStr(s)
             self.py_raise(UnicodeDecodeError, "utf-8", b"", 0, 1, "invalid start byte")
         if name == "startswith":
@@ -971,7 +972,7 @@ class ModelsMixin(object):
             t = str_term(recv)
             b = UTF8_ENC(t)
             self.assume_raw(z3.And(UTF8_OK(b), UTF8_DEC(b) == t))
-            self.assume_raw(z3.Length(b) >= z3.Length(t))
+            self.assume_raw(z3.And(z3.Length(b) >= z3.Length(t), z3.Length(b) <= 4 * z3.Length(t)))
             self.assume_raw((z3.Length(b) == 0) == (z3.Length(t) == 0))
             self.eng.externals_used.add("str.encode('utf-8') (assumed: injective, len(bytes) >= len(str), "
                                         "inverse of decode; surrogates not modelled)")
@@ -1057,7 +1058,14 @@ class ModelsMixin(object):
             self.unsupported("slice of a symbolic sequence")
         i = self.norm_index(k, z3.Length(s.term), None)
         it = i if not isinstance(i, int) else z3.IntVal(i)
-        return s.elem.materialize(self, z3.simplify(s.term[it]))
+        e = z3.simplify(s.term[it])
+        cache = self.elem_cache.get(s.elem.name, {})
+        if e.get_id() not in cache and len(cache) <= 4:
+            # the element may be an object this path itself put into the sequence: return THAT object
+            for rid, (r, obj) in list(cache.items()):
+                if self.entails(e == r):
+                    return obj
+        return s.elem.materialize(self, e)
 
     def sseq_contains(self, s, item):
         if isinstance(item, SObj) and item.ref is not None and s.elem.by_identity:
